@@ -965,12 +965,15 @@ func (r *Raft) leaderLoop() {
 // verifyLeader must be called from the main thread for safety.
 // Causes the followers to attempt an immediate heartbeat.
 func (r *Raft) verifyLeader(v *verifyFuture) {
-	// Current leader always votes for self
-	v.votes = 1
+	// The leader votes for itself, if it has a vote
+	v.votes = 0
+	if hasVote(r.configurations.latest, r.localID) {
+		v.votes = 1
+	}
 
 	// Set the quorum size, hot-path for single node
 	v.quorumSize = r.quorumSize()
-	if v.quorumSize == 1 {
+	if v.votes >= v.quorumSize {
 		v.respond(nil)
 		return
 	}
@@ -979,8 +982,11 @@ func (r *Raft) verifyLeader(v *verifyFuture) {
 	v.notifyCh = r.verifyCh
 	r.leaderState.notify[v] = struct{}{}
 
-	// Trigger immediate heartbeats
-	for _, repl := range r.leaderState.replState {
+	// Trigger immediate heartbeats; only voters' acknowledgements count
+	for id, repl := range r.leaderState.replState {
+		if !hasVote(r.configurations.latest, id) {
+			continue
+		}
 		repl.notifyLock.Lock()
 		repl.notify[v] = struct{}{}
 		repl.notifyLock.Unlock()
